@@ -179,6 +179,9 @@ def check(pid, tier, spec):
     evid_dir = os.environ.get("VERIF_EVIDENCE_DIR") or os.path.join(VERIF, "evidence")
     os.makedirs(evid_dir, exist_ok=True)
     units = [u for u in spec["units"] if tier in u.get("tiers", ["quick", "thorough"])]
+    only = os.environ.get("VERIF_UNITS")  # development aid: run a subset of the units (vacuity labels of the others will be missing)
+    if only:
+        units = [u for u in units if u["name"] in only.split(",")]
     jobs = []
     for u in units:
         of = u.get(tier + "_shards", u.get("shards", 1))
